@@ -383,6 +383,15 @@ func (st *evalState) eval(v ssa.Value) (int64, bool) {
 		}
 		return st.fail("unsupported unary op %v", x.Op)
 	case *ssa.BinOp:
+		if bt, isB := x.X.Type().Underlying().(*types.Basic); isB && bt.Info()&types.IsString != 0 && (x.Op == token.EQL || x.Op == token.NEQ) {
+			// comparison of two strings that are constants on this path (a table function's result against "")
+			sa, ok1 := stringOnPath(st, x.X)
+			sb, ok2 := stringOnPath(st, x.Y)
+			if ok1 && ok2 {
+				return b2i((sa == sb) == (x.Op == token.EQL)), true
+			}
+			return st.fail("comparison of strings that are not constants on this path")
+		}
 		a, ok := st.eval(x.X)
 		if !ok {
 			return 0, false
